@@ -16,7 +16,7 @@ From LP Require Import UPoly Refine.
 Set Warnings "-notation-overridden,-ambiguous-paths".
 From mathcomp Require Import all_ssreflect all_algebra all_real_closed.
 Set Warnings "notation-overridden,ambiguous-paths".
-From LP Require Import RefineProofs.
+From LP Require Import RefAlg RefAlgSpec RefAlgArith RefAlgRoots RefineProofs RefineCheck RefineCheckProofs.
 Import GRing.Theory Num.Theory Num.Def.
 Local Open Scope ring_scope.
 
@@ -119,3 +119,73 @@ Proof. exact ex_run. Qed.
 Example C09_example_obs : ex_obs =
   [:: OInt (-1)%ZZ; ONone; ONone; OInt (-1)%ZZ; ONone; ONone; ONone; ONone; OInt 0%ZZ; OInt 1%ZZ; OInt 1%ZZ; OInt (-1)%ZZ; ONone].
 Proof. reflexivity. Qed.
+
+(* ---------------------------------------------------------------- 8. VERIFIED CHECKERS: what the model driver accepts is true.
+   The driver (ocaml/p_c09.ml) accepts a printed step of libpoly iff RefineCheck.check_step accepts it (run with memoised
+   closures sn / cmpf / flf of same_number, rn_cmp, rn_floor).  rn_denotes is the denotation of the proved reference
+   (Properties_Base.v); dens pool vals = slot k of the reference pool denotes the real vals_k. *)
+
+(* a representation read from libpoly that passes same_number denotes the real of the reference number *)
+Theorem C09_same_number_sound : forall (R : rcfType) fuel (r x : rnum) (v : R),
+  same_number fuel r x = true -> rn_denotes x v -> rn_denotes (rn_norm r) v.
+Proof. exact same_number_sound. Qed.
+Print Assumptions C09_same_number_sound.
+
+(* ONE ACCEPTED STEP: the observation libpoly reported is the mathematical answer (sign of a difference, sign, floor,
+   ceiling, integrality, sign / value of a polynomial under the assignment), the new reference pool denotes the reals
+   the operation assigns (sum, product, quotient, inverse, negation, copy; nothing for a query), and every
+   representation libpoly printed after the step denotes the real of its slot *)
+Theorem C09_checked_step : forall (R : rcfType) sn cmpf flf fuel,
+  (forall r x, sn r x = true -> same_number fuel r x = true) ->
+  (forall x y s, cmpf x y = Some s -> rn_cmp fuel x y = Some s) ->
+  (forall x z, flf x = Some z -> rn_floor fuel x = Some z) ->
+  forall pool (vals : seq R) it pool', RefAlgRoots.dens pool vals ->
+  check_step sn cmpf flf fuel pool it = Some pool' ->
+  [/\ obs_true vals (it_op it) (it_obs it),
+      RefAlgRoots.dens pool' (sem vals (it_op it)) &
+      forall rs, it_reps it = Some rs -> RefAlgRoots.dens [seq rn_norm r | r <- rs] (sem vals (it_op it))].
+Proof. exact check_step_sound. Qed.
+Print Assumptions C09_checked_step.
+
+(* ALL ACCEPTED HISTORIES, by induction over the history *)
+Theorem C09_checked_history : forall (R : rcfType) sn cmpf flf fuel,
+  (forall r x, sn r x = true -> same_number fuel r x = true) ->
+  (forall x y s, cmpf x y = Some s -> rn_cmp fuel x y = Some s) ->
+  (forall x z, flf x = Some z -> rn_floor fuel x = Some z) ->
+  forall pool (vals : seq R) items, RefAlgRoots.dens pool vals ->
+  check_run sn cmpf flf fuel pool items = true -> run_true vals items.
+Proof. exact check_run_sound. Qed.
+Print Assumptions C09_checked_history.
+
+(* the closed instance: the checker run with the Gallina reference functions themselves *)
+Theorem C09_checked_history_ref : forall (R : rcfType) fuel pool (vals : seq R) items,
+  RefAlgRoots.dens pool vals -> check_run_ref fuel pool items = true -> run_true vals items.
+Proof. exact check_run_ref_sound. Qed.
+Print Assumptions C09_checked_history_ref.
+
+(* QUERYING NEVER CHANGES THE NUMBER, as a theorem about accepted runs: after an accepted const call (comparison, sign,
+   floor, ceiling, integrality, polynomial sign / evaluation, or any other call after which the slots are re-read) the
+   reference pool is unchanged, the observation is the mathematical answer, and every representation libpoly printed
+   afterwards denotes exactly the real its slot had before the call *)
+Theorem C09_accepted_query_keeps : forall (R : rcfType) sn cmpf flf fuel,
+  (forall r x, sn r x = true -> same_number fuel r x = true) ->
+  (forall x y s, cmpf x y = Some s -> rn_cmp fuel x y = Some s) ->
+  (forall x z, flf x = Some z -> rn_floor fuel x = Some z) ->
+  forall pool (vals : seq R) it pool', RefAlgRoots.dens pool vals -> cop_is_query (it_op it) = true ->
+  check_step sn cmpf flf fuel pool it = Some pool' ->
+  [/\ pool' = pool, obs_true vals (it_op it) (it_obs it) &
+      forall rs, it_reps it = Some rs -> RefAlgRoots.dens [seq rn_norm r | r <- rs] vals].
+Proof. exact accepted_query_keeps. Qed.
+Print Assumptions C09_accepted_query_keeps.
+
+(* bridge to the state machine: a representation satisfying the invariant WF of theorems 1-7, read the way the driver
+   reads it (anum_rn), denotes den in the sense of the reference *)
+Theorem C09_WF_denotes : forall (R : rcfType) x, WF R x -> rn_denotes (anum_rn x) (den R x).
+Proof. exact WF_denotes. Qed.
+Print Assumptions C09_WF_denotes.
+
+(* non-vacuity: an accepted history (cmp, floor, add, polynomial sign = 0, cmp) and a pool that denotes *)
+Example C09_check_example_accepted : check_run_ref 60 ck_pool ck_items = true.
+Proof. exact ck_accepted. Qed.
+Example C09_check_example_true : forall R : rcfType, exists vals : seq R, RefAlgRoots.dens ck_pool vals /\ run_true vals ck_items.
+Proof. exact ck_true. Qed.
